@@ -364,6 +364,18 @@ fn run_plain(op: &str, args: &[Sexp]) -> Result<Outc, String> {
 		("enigma", [b]) => run_enigma(&b.as_bytes()?),
 		("nests", [b]) => run_nests(&b.as_bytes()?),
 		("desc-field" | "desc-method" | "desc-return", [s]) => run_desc(op, s)?,
+		// compact form of a descriptor with `n` array dimensions: `[`*n I  /  ( `[`*n I ) V  /  `[`*n I
+		("desc-deep", [Sexp::Atom(kind), n]) => {
+			let n = n.as_nat()?;
+			if n > 4_000_000 { return Err("too deep".into()); }
+			let mut cps: Vec<u32> = Vec::with_capacity(n + 4);
+			if kind == "desc-method" { cps.push('(' as u32); }
+			cps.extend(std::iter::repeat('[' as u32).take(n));
+			cps.push('I' as u32);
+			if kind == "desc-method" { cps.push(')' as u32); cps.push('V' as u32); }
+			if !matches!(kind.as_str(), "desc-field" | "desc-method" | "desc-return") { return Err("kind".into()); }
+			run_desc(kind, &Sexp::cps(&cps))?
+		}
 		_ => return Err(format!("unknown op {op}")),
 	})
 }
@@ -859,6 +871,10 @@ fn gen_wrapped(r: &mut Rng, tier: Tier, out: &mut Out) {
 	}
 	// linear nesting around the depth limit of 255 (835fdd2) and far beyond what the stack could hold before
 	for d in [1usize, 2, 8, 40, 200, 254, 255, 256, 257, 1000, 50000] { out.op("anno-nest", &[Sexp::nat(d)]); }
+	// array dimensions far beyond any stack budget of a recursive descent (the parsers count them in a loop and stop at 255)
+	for d in [0usize, 1, 254, 255, 256, 257, 5000, 70000, 1000000] {
+		for kind in ["desc-field", "desc-method", "desc-return"] { oracle(out, "desc-deep", &[Sexp::tag(kind), Sexp::nat(d)]); out.op("desc-deep", &[Sexp::tag(kind), Sexp::nat(d)]); }
+	}
 	for d in [253usize, 254, 255, 256] {
 		// the same with annotations: `@ LA; 1 pair (name m, value …)`
 		let mut b = Vec::new();
